@@ -407,6 +407,10 @@ func (g *bgen) schema(doc string, depth int, allowRef bool) O {
 		s := O{"type": "array", "items": g.schema(doc, depth+1, allowRef)}
 		if g.Pct(8) {
 			s["additionalItems"] = g.schema(doc, depth+1, allowRef) // unusual but loadable: additionalItems next to a single items schema
+			if g.Pct(30) {
+				delete(s, "items") // ... or on its own: still a schema location
+				g.Label("additionalItems-without-items")
+			}
 		}
 		return s
 	case k < 79: // tuple
